@@ -86,6 +86,9 @@ func verifC18Expect(a, b verifC18Model, n int, sub bool) (want Coins, overflow b
 
 func verifC18Arith(sub bool, checked bool) {
 	n := verifC18N()
+	if sub {
+		n = 3 // subtraction over 4 denominations exceeds the path budget; both tiers use 3
+	}
 	A, ma := verifC18Set("A", n)
 	B, mb := verifC18Set("B", n)
 	A0 := append(Coins(nil), A...)
